@@ -25,6 +25,14 @@ def instances(tier):
                       {"MSEL": m, "FILTER": "PIXMAN_FILTER_" + f, "REPEAT": "PIXMAN_REPEAT_" + r, "SWID": w, "SHEI": h},
                       unwind=12, unwindset=API_UNWINDSET + ("memcmp.0:40",), objbits=12, timeout=900, checks=["--bounds-check", "--pointer-check"],
                       desc={"what": "composite32 with a transformed, filtered, repeated exactly-sized source: every read/write inside the images' storage (CBMC bounds checks)"}))
+    a1 = [("over_n_1_8888-opaque", {"SOLID_ALPHA": "0xffff"}), ("over_n_1_8888-translucent", {"SOLID_ALPHA": "0x8000"}), ("add_1_1", {"ADD11": None})]
+    if tier == "thorough":
+        a1 += [("over_n_1_0565-opaque", {"SOLID_ALPHA": "0xffff", "DFMT": "PIXMAN_r5g6b5"}), ("over_n_1_0565-translucent", {"SOLID_ALPHA": "0x8000", "DFMT": "PIXMAN_r5g6b5"}),
+               ("over_n_1_8888-opaque-mx0-w32", {"SOLID_ALPHA": "0xffff", "MX": 0, "WD": 32})]
+    for nm, d in a1:
+        L.append(Inst("a1-walk-" + nm, "C04/a1mask.c", d, unwind=2 * d.get("WD", 8) + 2, unwindset=API_UNWINDSET + ("memcmp.0:40",), objbits=12, timeout=900,
+                      checks=["--bounds-check", "--pointer-check"],
+                      desc={"what": "composite32 through the bit-walking C fast path with an exactly-sized 32x2 a1 mask/source, request ending on the word boundary: every read/write inside the images' storage"}))
     return L
 
 
@@ -33,11 +41,12 @@ TEXT = ("Bounded model checking with CBMC's memory-safety instrumentation (an ou
         "trapezoid (all coordinates 32-bit symbolic) and image height - this is the obligation that exposed the floor_y saturation bug; "
         "(2) rasterize_edges_1/4/8 stay inside the pixel storage for ANY 32-bit edge positions; (3) the allocation-size helpers never request "
         "an overflowed size, for every 32-bit count; (4) transformed, filtered, repeated fetches through pixman_image_composite32 from "
-        "exactly-sized sources stay inside the storage (transform/filter/repeat menus, pixels symbolic). Bounds checks are also on in the "
+        "exactly-sized sources stay inside the storage (transform/filter/repeat menus, pixels symbolic); (5) the bit-walking a1 fast paths "
+        "(over_n_1_8888, over_n_1_0565, add_1_1) on an exactly-sized a1 image with the request ending on the word boundary. Bounds checks are also on in the "
         "C01/C03/C10/C12/C19 harnesses.")
 NOTE = ("The COVER_CLIP licence (analyze_extent vs. fetcher arithmetic) with symbolic transforms is not decided (32x32 multipliers, see C11); "
         "API-level geometry and transforms are concrete menus; SIMD paths are not encoded; images are at most 3x2.")
-RULE = "C04 instance = trapezoid row range | span safety | allocation arithmetic | API fetch (transform, filter, repeat, source size)."
+RULE = "C04 instance = trapezoid row range | span safety | allocation arithmetic | API fetch (transform, filter, repeat, source size) | a1 fast-path walk."
 BOUNDS = {"trapezoids": "all 32-bit coordinates, heights 1..32767", "spans": "any 32-bit edge x", "alloc": "count 32-bit symbolic, element size from menu", "fetch": "menu of 7 transforms"}
 OUTSIDE = ["symbolic transforms (COVER_CLIP analysis)", "SIMD fast paths", "images larger than 3x2 at API level", "negative strides"]
 ASSUMPTIONS = ["images described truthfully (buffers exactly height*stride)"]
